@@ -74,7 +74,20 @@ class Fragment:
         self.features = self.meta.get("features", "encoder")
         self.always = self.meta.get("always", False)
         self.raw = self.meta.get("raw", False)
+        expanded = []
         for h in self.harnesses:
+            fv = h.pop("feature_variants", None)
+            if fv:
+                for ft in fv:
+                    c = dict(h)
+                    c["features"] = ft
+                    c["id"] = h["name"] + ("@opt" if "optimization" in ft else "@base")
+                    expanded.append(c)
+            else:
+                expanded.append(h)
+        self.harnesses = expanded
+        for h in self.harnesses:
+            h.setdefault("id", h["name"])
             h.setdefault("features", self.features)
             h.setdefault("tier", "quick")
             h.setdefault("timeout", 600)
@@ -170,11 +183,24 @@ def make_scratch(fragments, extra_writer=None):
         p = os.path.join(src, fr.inject)
         if not os.path.exists(p):
             raise Undecided("injection target %s missing in /repo" % fr.inject)
+        text = fr.wrapped()
+        gen = fr.meta.get("generator")
+        if gen:
+            import generators
+            try:
+                generated, info = getattr(generators, gen)(src)
+            except Exception as e:  # LowerError or a parse failure: never guess
+                raise Undecided("generator %s failed on the current source: %s" % (gen, e))
+            GENERATED_INFO[fr.name] = info
+            text = text.replace("/*@GENERATED@*/", generated)
         with open(p, "a") as f:
-            f.write(fr.wrapped())
+            f.write(text)
     if extra_writer:
         extra_writer(src)
     return d, src
+
+
+GENERATED_INFO = {}
 
 
 class Undecided(Exception):
@@ -351,7 +377,7 @@ def run_harness(h, src, logdir):
         # pass 1 without concrete playback: `--concrete-playback` makes Kani drop CBMC's --slice-formula and add
         # --trace, which multiplies memory (measured: 98 K SAT variables vs. OOM at 24 GB for the same harness)
         cmd = kani_cmd(h, slot.dir, playback=False)
-        logfile = os.path.join(logdir, h["name"] + ".log")
+        logfile = os.path.join(logdir, h["id"] + ".log")
         rc, out, timed_out, wall = run_cmd(cmd, src, h["timeout"], h["mem_gb"], logfile=logfile)
         pr1 = parse_kani_output(out)
         real_fail = [f for f in pr1["failures"] if "unwinding assertion" not in f["description"]]
@@ -367,7 +393,7 @@ def run_harness(h, src, logdir):
             pb = []
     finally:
         slot.release()
-    r = {"harness": h["name"], "wall_s": round(wall, 1), "rc": rc, "timed_out": timed_out}
+    r = {"harness": h["id"], "wall_s": round(wall, 1), "rc": rc, "timed_out": timed_out}
     if timed_out:
         r["verdict"] = "UNDECIDED"
         r["reason"] = "timeout after %ds" % h["timeout"]
@@ -450,7 +476,7 @@ def native_replay(h, fragment, src, test_code, logdir, release=False):
     fcntl.flock(lock, fcntl.LOCK_EX)
     try:
         rc, out, timed_out, wall = run_cmd(cmd, src, 900, 16, env=env,
-                                           logfile=os.path.join(logdir, h["name"] + (".replay-rel.log" if release else ".replay.log")))
+                                           logfile=os.path.join(logdir, h["id"] + (".replay-rel.log" if release else ".replay.log")))
     finally:
         fcntl.flock(lock, fcntl.LOCK_UN)
         lock.close()
@@ -482,7 +508,7 @@ def run_property(prop, tier, seed, selftests=None, only=None):
     frags = load_fragments()
     sel = select(frags, prop, tier)
     if only:
-        sel = [(f, h) for f, h in sel if only in h["name"]]
+        sel = [(f, h) for f, h in sel if only in h["id"]]
     if not sel:
         raise SystemExit("no harness registered for %s" % prop)
     need = {fr.name for fr, _ in sel}
@@ -522,7 +548,7 @@ def run_property(prop, tier, seed, selftests=None, only=None):
                 r = run_harness(h, src, logdir)
                 with lock:
                     results.append((fr, h, r))
-                    log("[%s] %-44s %-10s %6.1fs %s" % (prop, h["name"], r["verdict"], r["wall_s"],
+                    log("[%s] %-44s %-10s %6.1fs %s" % (prop, h["id"], r["verdict"], r["wall_s"],
                                                        r.get("reason", "")[:300].replace("\n", " | ")))
             for fr, h in order:
                 t = threading.Thread(target=work, args=(fr, h))
@@ -531,7 +557,7 @@ def run_property(prop, tier, seed, selftests=None, only=None):
             for t in threads:
                 t.join()
             # post-process verdicts
-            for fr, h, r in sorted(results, key=lambda x: x[1]["name"]):
+            for fr, h, r in sorted(results, key=lambda x: x[1]["id"]):
                 if h["twin"]:
                     # mutation twin: must FAIL, otherwise the harness family is vacuous
                     if r["verdict"] == "FAILED":
@@ -539,20 +565,20 @@ def run_property(prop, tier, seed, selftests=None, only=None):
                     elif r["verdict"] == "DISCHARGED":
                         r["verdict"] = "UNDECIDED"
                         r["reason"] = "mutation twin unexpectedly verified (vacuous harness family)"
-                        undecided.append(h["name"] + ": " + r["reason"])
+                        undecided.append(h["id"] + ": " + r["reason"])
                     else:
-                        undecided.append(h["name"] + ": " + r.get("reason", ""))
+                        undecided.append(h["id"] + ": " + r.get("reason", ""))
                     continue
                 if r["verdict"] == "UNDECIDED":
-                    undecided.append(h["name"] + ": " + r.get("reason", ""))
+                    undecided.append(h["id"] + ": " + r.get("reason", ""))
                 elif r["verdict"] == "FAILED":
                     unlisted = []
                     for f in r["failures"]:
-                        k = known.match(prop, h["name"], f)
+                        k = known.match(prop, h["id"], f)
                         if k:
                             f["known"] = k["what"]
                             if k not in [x[0] for x in known_hits]:
-                                known_hits.append((k, h["name"]))
+                                known_hits.append((k, h["id"]))
                         else:
                             unlisted.append(f)
                     if not unlisted:
@@ -565,7 +591,7 @@ def run_property(prop, tier, seed, selftests=None, only=None):
                     else:
                         r["verdict"] = "UNDECIDED"
                         r["reason"] = "counterexample did not reproduce natively: " + rep.get("detail", "")
-                        undecided.append(h["name"] + ": " + r["reason"])
+                        undecided.append(h["id"] + ": " + r["reason"])
     except Undecided as e:
         undecided.append(str(e))
     finally:
@@ -603,7 +629,7 @@ def replay_failure(prop, fr, h, r, unlisted, src, logdir):
                 break
         if test:
             break
-    rep = {"property": prop, "harness": h["name"], "qualified": h["qualified"], "features": h["features"],
+    rep = {"property": prop, "harness": h["id"], "qualified": h["qualified"], "features": h["features"],
            "failures": unlisted, "fragment": fr.name, "functions": h["functions"], "bounds": h["bounds"]}
     ub_only = all(("pointer" in f["description"] or "dereference" in f["description"] or "out of bounds" in f["description"] and "index" not in f["description"]) for f in unlisted)
     if test is None:
@@ -624,8 +650,8 @@ def replay_failure(prop, fr, h, r, unlisted, src, logdir):
         elif ok is False and ub_only and prop == "C15":
             rep["reproduced"] = True
             rep["kind"] = "ub-candidate"
-    key = hashlib.sha1((h["name"] + "|" + "|".join(sorted(f["description"] + "@" + f["function"] for f in unlisted))).encode()).hexdigest()[:10]
-    path = os.path.join(REPLAY_DIR, prop, "%s.%s.json" % (h["name"], key))
+    key = hashlib.sha1((h["id"] + "|" + "|".join(sorted(f["description"] + "@" + f["function"] for f in unlisted))).encode()).hexdigest()[:10]
+    path = os.path.join(REPLAY_DIR, prop, "%s.%s.json" % (h["id"], key))
     rep["path"] = path
     with open(path, "w") as fo:
         json.dump(rep, fo, indent=1)
@@ -654,7 +680,7 @@ def run_selftest(st, src, logdir, seed):
 
 def write_evidence(prop, tier, seed, sel, results, violations, undecided, known_hits, selftests, wall):
     os.makedirs(EVIDENCE_DIR, exist_ok=True)
-    byname = {h["name"]: r for _, h, r in results}
+    byname = {h["id"]: r for _, h, r in results}
     samples = []
     total_checks = 0
     covers = 0
@@ -664,7 +690,7 @@ def write_evidence(prop, tier, seed, sel, results, violations, undecided, known_
     stubs = set()
     assumes = set()
     for fr, h in sel:
-        r = byname.get(h["name"], {"verdict": "NOT-RUN"})
+        r = byname.get(h["id"], {"verdict": "NOT-RUN"})
         total_checks += r.get("n_checks", 0) or 0
         covers += r.get("covers_satisfied", 0) or 0
         if r["verdict"] in ("DISCHARGED", "TWIN-OK"):
@@ -674,7 +700,7 @@ def write_evidence(prop, tier, seed, sel, results, violations, undecided, known_
         stubs.update(h["stubs"])
         assumes.update(h["assumes"])
         s = {
-            "harness": h["qualified"], "obligation": h["obligation"], "tier": h["tier"], "features": h["features"],
+            "harness": h["qualified"], "id": h["id"], "obligation": h["obligation"], "tier": h["tier"], "features": h["features"],
             "functions_encoded": h["functions"], "bounds": h["bounds"], "assumes": h["assumes"], "stubs": h["stubs"],
             "verdict": r["verdict"], "cbmc_checks": r.get("n_checks"), "covers": r.get("covers"),
             "wall_s": r.get("wall_s"), "cbmc_time_s": r.get("verification_time_s"),
@@ -707,6 +733,7 @@ def write_evidence(prop, tier, seed, sel, results, violations, undecided, known_
             "functions_encoded": sorted(functions),
             "solver_time_s": round(solver_s, 1),
             "selftests": selftests,
+            "generated_models": GENERATED_INFO,
             "undecided": undecided[:20],
             "violations": [{"harness": v["harness"], "replay": v["path"], "failures": v["failures"][:3]} for v in violations],
             "exhaustive": False,
@@ -729,7 +756,7 @@ def replay_file(prop, path):
     rep = json.load(open(path))
     frags = load_fragments()
     fr = next(f for f in frags if f.name == rep["fragment"])
-    h = next(x for x in fr.harnesses if x["name"] == rep["harness"])
+    h = next(x for x in fr.harnesses if x["id"] == rep["harness"])
     deps = set(fr.meta.get("needs", []))
     use = [f for f in frags if f.always or f.name == fr.name or f.name in deps]
     scratch, src = make_scratch(use)
